@@ -23,7 +23,7 @@ ASSUMPTIONS = [
 ]
 
 PASSES = ['optimize', 'constprop', 'cse', 'wire', 'slice', 'dead', 'optimize2', 'cse+constprop']
-BASES = ['word', 'synth', 'nand', 'aig']
+BASES = ['word', 'synth', 'nand', 'aig']     # + 'dco' (word-level after direct_connect_outputs) for the small families
 
 
 def bounds(tier):
@@ -47,6 +47,8 @@ def cases(tier, seed):
     for i, c in enumerate(base):
         if c['fam'] in ('CONSTOP', 'DUP', 'MISC', 'CARG'):
             combos = [(b, p) for b in ('word', 'synth') for p in ('optimize', 'constprop', 'cse')]
+            # 'dco': the gates drive the Outputs themselves (direct_connect_outputs ran first)
+            combos += [('dco', p) for p in ('optimize', 'constprop', 'cse')]
             if tier != 'quick':
                 combos += [('nand', 'optimize'), ('aig', 'optimize'), ('word', 'optimize2'), ('synth', 'cse+constprop'),
                            ('word', 'wire'), ('word', 'slice'), ('word', 'dead')]
@@ -77,6 +79,9 @@ def prep(case):
     blk = designs.build(case)
     b = case['base']
     if b == 'word':
+        return blk
+    if b == 'dco':
+        pyrtl.direct_connect_outputs(blk)
         return blk
     blk = pyrtl.synthesize(update_working_block=True, block=blk)
     if b == 'nand':
